@@ -72,7 +72,7 @@ impl Property for C38 {
         Meta {
             id: "C38",
             level: "exploration",
-            rule: "one evaluation = one history of 8-30 operations in ONE process (sign, read, add-ingredient, archive save/restore, an operation made to fail by an injected stream fault, a cancelled operation, an async operation dropped mid-await, deprecated thread-local settings changes followed by restoring the full default dump, reads under different contexts, hash chunk knob changes), all artefacts kept; afterwards every artefact is re-read in-process and in a freshly spawned process with the same settings, and the first definition is signed again. Oracle: first read == re-read == fresh-process read (report and code multiset, validation time removed); re-sign report == first-sign report on per-signing-invariant fields. Any difference implicates state left behind (thread-local settings, caches, lazy statics, OnceLocks). Non-trivial = history contained a failing / cancelled / dropped operation; distinct = history",
+            rule: "one evaluation = one history of 8-30 operations in ONE process (sign, read, add-ingredient, archive save/restore, an operation made to fail by an injected stream fault, a cancelled operation, an async operation dropped mid-await, deprecated thread-local settings changes followed by restoring the full default dump, a thread-local settings text that is refused by validation, reads under different contexts, hash chunk knob changes), all artefacts kept; afterwards every artefact is re-read in-process and in a freshly spawned process with the same settings, and the first definition is signed again. Oracle: first read == re-read == fresh-process read (report and code multiset, validation time removed); re-sign report == first-sign report on per-signing-invariant fields. Any difference implicates state left behind (thread-local settings, caches, lazy statics, OnceLocks). Non-trivial = history contained a failing / cancelled / dropped operation; distinct = history",
             assumptions: &["fresh-process reads use the same simulator binary", "SDK randomness reseeded identically for first sign and re-sign"],
             real: &["c2pa SDK process-wide and thread-local state"],
             stubbed: &["streams (SimStream) for the faulted operations"],
@@ -207,6 +207,21 @@ impl Property for C38 {
                         disturbed = true;
                         out.fault("dropped_future");
                     }
+                }
+                7 if fail_at % 3 == 0 => {
+                    // a settings text that parses but is refused (value out of range): nothing of
+                    // it may stick to the thread
+                    trace.push("legacy-settings-refused".into());
+                    #[allow(deprecated)]
+                    let res = c2pa::Settings::from_toml("version = 1\n[verify]\nverify_trust = false\nverify_after_sign = false\n[core]\nmax_decompressed_manifest_size_in_mb = 99999999\n");
+                    out.probe(if res.is_err() { "refused-settings-rejected" } else { "refused-settings-accepted" });
+                    if res.is_ok() {
+                        // accepted after all: put the defaults back like the other settings operation
+                        #[allow(deprecated)]
+                        let _ = c2pa::Settings::from_toml(&legacy_default);
+                    }
+                    disturbed = true;
+                    out.fault("thread_local_settings_refused");
                 }
                 7 => {
                     trace.push("legacy-settings+reset".into());
